@@ -295,6 +295,13 @@ def run_case(acc, audit, wd, idx, sch, rng, arrangement, want_cpp, seed):
                     return
             acc.count('constants_compared')
         elif d.kind in ('struct', 'union'):
+            try:
+                da, db = getattr(m2, d.name)().encode('<'), getattr(mod1, d.name)().encode('<')
+            except Exception:  # noqa - never-assigned bytes field (recorded finding of C01)
+                da = db = None
+            if da != db:
+                acc.violation(PROP, 'default-constructed-message-differs', witness(type=d.name, split=C.hexs(da), single=C.hexs(db)))
+                return
             for mode, v in V.value_set(sch, w, d.name, rng, nrand=1, aligned_greedy=False):
                 try:
                     a = getattr(m2, d.name)()
